@@ -7,6 +7,7 @@ import Helios.Model.Proxy
 import Helios.Model.Registry
 import Helios.Model.Ids
 import Helios.Model.Config
+import Helios.Model.Wiring
 import Helios.Model.Pool
 /-
 Line-protocol driver: one operation per input line, one output line per operation.
@@ -36,6 +37,7 @@ structure DState where
   pxIds : Bool × Bool := (false, false)     -- request-id / trace features of the `px` front end
   pxBase : String := ""                      -- backend base path
   rwChain : Option String := none            -- the chain held by `rws` for the following `rw @` exchanges
+  admReg : List (String × Int × String) := []   -- admin API registry as `adm padd / prm` leave it: (name, weight, address)
 
 def words (line : String) : List String :=
   (line.splitOn " ").filter (fun w => w != "")
@@ -309,7 +311,29 @@ def admStep (s : DState) : List String → DState × String
   | ["new", tok, a, d] =>
     let pa := parseEntries a
     let pd := parseEntries d
-    ({ s with admF := ⟨pa.1, pd.1, pa.2 || pd.2⟩, admTok := (bytesToString (unesc tok)).toList, admSt := {} }, "ok")
+    ({ s with admF := ⟨pa.1, pd.1, pa.2 || pd.2⟩, admTok := (bytesToString (unesc tok)).toList, admSt := {}, admReg := [] }, "ok")
+  -- the add / remove handlers on a body with exactly the listed keys (an absent key is the zero value): the outcome
+  -- depends on this request and the registry only
+  | ["padd", n, a, w] =>
+    let name := if n == "-" then "" else bytesToString (unesc n)
+    let addr := if a == "-" then "" else bytesToString (unesc a)
+    match (if w == "-" then some (0 : Int) else w.toInt?) with
+    | none => (s, "bad-op")
+    | some wt =>
+      let show_ := fun (reg : List (String × Int × String)) =>
+        ",".intercalate (sortStrings (reg.map (fun e => s!"{Bytes.hex e.1.toUTF8.toList}|{e.2.1}|{Bytes.hex e.2.2.toUTF8.toList}")))
+      if name == "" || addr == "" || s.admReg.any (·.1 == name) then (s, "code=400 list=" ++ show_ s.admReg)
+      else
+        let reg := s.admReg ++ [(name, if wt < 1 then 1 else wt, addr)]
+        ({ s with admReg := reg }, "code=201 list=" ++ show_ reg)
+  | ["prm", n] =>
+    let name := if n == "-" then "" else bytesToString (unesc n)
+    let show_ := fun (reg : List (String × Int × String)) =>
+      ",".intercalate (sortStrings (reg.map (fun e => s!"{Bytes.hex e.1.toUTF8.toList}|{e.2.1}|{Bytes.hex e.2.2.toUTF8.toList}")))
+    if name == "" then (s, "code=400 list=" ++ show_ s.admReg)
+    else
+      let reg := s.admReg.filter (·.1 != name)
+      ({ s with admReg := reg }, "code=200 list=" ++ show_ reg)
   | ["req", method, path, authz, _remote, peer, _xff, _xri, bk] =>
     let body : Admin.Body :=
       if bk.startsWith "add:" then
@@ -451,7 +475,8 @@ def idStep (s : DState) : List String → DState × String
     | none => (s, "bad-op")
     | some n =>
       let (ron, _, ton, _) := s.idCfg
-      let per := (if ron then 1 else 0) + (if ton then 1 else 0)
+      -- the optional `request-id` plugin stamps every exchange with an identifier of its own draw (under the default name)
+      let per := (if ron || s.idPlugins.contains "rid" then 1 else 0) + (if ton then 1 else 0)
       ({ s with idRl := s.idRl.map (fun t => t - n) }, s!"burst ids={n * per} dups=0")
   | ["req", rid, tr, key, blen, ej, "own"] =>
     -- the backend adds identifiers of its own to its answer: the propagated one stays the client's
@@ -542,8 +567,10 @@ def wireStep (mx iv to ft st : String) : String :=
   match Cfg.validate c with
   | some _ => "rejected"
   | none =>
-    let m := if c.cbMax == 0 then c.cbSuccess else c.cbMax
-    s!"eff {m} {c.cbInterval * 1000000000} {c.cbTimeout * 1000000000} {c.cbFailure} {c.cbSuccess}"
+    -- `Wire.cbEff`: what `setupCircuitBreaker` constructs the breaker with (CodeTie.setupCircuitBreaker_refines)
+    match Wire.cbEff c with
+    | [m, iv, tmo, ft, st] => s!"eff {m} {iv} {tmo} {ft} {st}"
+    | _ => "bad-op"
 
 /-- `lb wireall`: validation, then the numbers each feature runs with (documented defaults for
 the values validation lets be zero) -/
@@ -559,7 +586,12 @@ def wireAllStep (a : List String) : String :=
     | none =>
       let sec := (1000000000 : Int)
       let d := fun (v dflt : Int) => if v == 0 then dflt else v
-      s!"eff ai={ai * sec} at={atm * sec} pt={pt} pto={pto * sec} rlm={rlm} rlr={rlr * sec} wsi={d wsi 10} wsa={d wsa 100} wst={d wst 300 * sec} tbr={d tbr 30 * sec} tbi={d tbi 90 * sec}"
+      -- `Wire.hcEff / rlEff / wsEff`: what createHealthChecker / setupRateLimiter / setupWebSocketPool construct with
+      let hc := Wire.hcEff c
+      match Wire.rlEff c, Wire.wsEff c with
+      | [erlm, erlr], [ewsi, ewsa, ewst] =>
+        s!"eff ai={hc.2.1} at={hc.2.2.1} pt={hc.2.2.2.2.2.1} pto={hc.2.2.2.2.2.2} rlm={erlm} rlr={erlr} wsi={ewsi} wsa={ewsa} wst={ewst} tbr={d tbr 30 * sec} tbi={d tbi 90 * sec}"
+      | _, _ => "bad-op"
   | _ => "bad-op"
 
 def closedStr (p : Pool.State) : String :=
